@@ -116,7 +116,7 @@ def save_trace(tid, rng, root: Path, nsaves):
     root.mkdir(parents=True)
     tk = Tokens()
     metas = {}
-    names = [f"run{j}" for j in range(max(2, nsaves // 2))] + ["x/y", "naïve name", "1"]
+    names = [f"run{j}" for j in range(max(2, nsaves // 2))] + ["x/y", "naïve name", "1", "v1.0", "v1.1", "alpha_0.25", "alpha_0.5", "a.b.c", ".hidden"]
     events = []
     use_save = rng.random() < 0.4
     path = (root / "m" / "data.json") if use_save else (root / "data.json")
